@@ -99,18 +99,22 @@ pub(crate) mod v_socket_tcp {
                 || matches!(s.state, State::SynSent | State::SynReceived | State::FinWait1 | State::Closing | State::LastAck))
     }
 
-    /// C02's finite-deadline invariant L1: whenever sequence space is unacknowledged or unsent, the socket
-    /// reports a finite next-poll deadline.  Evaluated with the real `poll_at`; the one-shot "acquire a
-    /// timestamp" answer (`remote_last_ts == None` => Now) is looked through, because it disappears at
-    /// the very next dispatch without anything being sent.
+    /// C02's finite-deadline invariant L1, in the strengthened form that is inductive: whenever sequence
+    /// space is unacknowledged or unsent, a deadline exists that will (re)transmit or abort -
+    /// something is sendable right now (`seq_to_transmit`), or a retransmission / fast-retransmission /
+    /// zero-window-probe timer runs, or the user timeout will abort the connection.  Deadlines that do not
+    /// retransmit anything (keep-alive, delayed ACK, window update, the one-shot timestamp acquisition) do
+    /// not count: a socket whose only deadline is one of those is stalled as soon as it has fired.
+    /// Every disjunct makes the real `poll_at` finite (asserted), so this implies the statement's
+    /// "finite next-poll deadline".
     fn deadline_finite(s: &mut Socket, cx: &mut Context) -> bool {
-        let saved = s.remote_last_ts;
-        if saved.is_none() {
-            s.remote_last_ts = Some(cx.now());
+        let strong = s.seq_to_transmit(cx)
+            || matches!(s.timer, Timer::Retransmit { .. } | Timer::FastRetransmit | Timer::ZeroWindowProbe { .. })
+            || s.timeout.is_some();
+        if strong {
+            crate::vassert!(s.poll_at(cx) != PollAt::Ingress, "prop:c02_poll_at_reports_the_retransmission_deadline");
         }
-        let r = s.poll_at(cx) != PollAt::Ingress;
-        s.remote_last_ts = saved;
-        r
+        strong
     }
 
     /// Fill `s` (freshly built by Socket::new over RX/TX-byte rings) with an arbitrary
@@ -185,6 +189,9 @@ pub(crate) mod v_socket_tcp {
         };
         // T0: the Close timer runs exactly in TIME-WAIT
         kani::assume(matches!(s.timer, Timer::Close { .. }) == (state == State::TimeWait));
+        // T3: a pending fast retransmission with data in flight never coexists with an idle timer AND a closed
+        // peer window (the timer is restarted when the fast retransmit fires; a window update to zero arms the probe)
+        kani::assume(!(s.pending_fast_retransmit && inflight > 0 && s.timer.is_idle() && s.remote_win_len == 0));
         let rto: u32 = kani::any();
         kani::assume(rto >= RTTE_MIN_RTO && rto <= RTTE_MAX_RTO);
         s.rtte.rto = rto;
@@ -427,6 +434,7 @@ pub(crate) mod v_socket_tcp {
             }
             crate::vassert!(s.remote_mss >= 48, "inv:S2_mss_floor");
             crate::vassert!(matches!(s.timer, Timer::Close { .. }) == (s.state == State::TimeWait), "inv:T0_close_timer_iff_time_wait");
+            crate::vassert!(!(s.pending_fast_retransmit && fl > 0 && s.timer.is_idle() && s.remote_win_len == 0), "inv:T3_pending_fast_retransmit_has_timer_or_open_window");
             crate::vassert!(s.rtte.rto >= RTTE_MIN_RTO && s.rtte.rto <= RTTE_MAX_RTO && s.rtte.rto_count < 3, "inv:T0_rto_bounds");
             if let Some(a) = s.remote_last_ack {
                 let nxt = sadd(s.remote_seq_no, s.rx_buffer.len());
@@ -516,7 +524,7 @@ pub(crate) mod v_socket_tcp {
                 let off = sb.seq.wrapping_sub(pre_nxt.0);
                 let end = off.wrapping_add(sb.plen as i32);
                 let ok = if sb.plen == 0 {
-                    if g.wnd == 0 { off == 0 } else { off >= 0 && off < g.wnd }
+                    if g.wnd <= 0 { off == 0 } else { off >= 0 && off < g.wnd }
                 } else {
                     g.wnd > 0 && ((off >= 0 && off < g.wnd) || (end > 0 && end <= g.wnd))
                 };
@@ -1190,7 +1198,7 @@ pub(crate) mod v_socket_tcp {
         // byte exactness is the small-ring harnesses' job (symbolic indexing into 128 KiB exhausts the solver)
         let total = s.assembler.verif_total();
         if total > 0 {
-            crate::vassert!(off > 0 && total == off as usize + 4, "prop:c04_only_segment_bytes_recorded");
+            crate::vassert!(off > 0 && total > off as usize && total <= off as usize + 4, "prop:c04_only_segment_bytes_recorded");
             crate::vassert!(total <= 65535, "prop:c04_no_byte_accepted_beyond_advertised_window");
             crate::vassert!(s.rx_buffer.is_empty(), "prop:c04_in_order_bytes_only");
         }
